@@ -104,9 +104,9 @@ def quantity(dv: dims.DimVec, magnitude: Any, spelling: str = "si") -> Any:
     from symplyphysics.core.symbols.prefixes import prefixes
     from sympy.physics import units as U
     unit = catalogue.si_unit_of(dv)
-    # 30-digit magnitudes: the library computes with sympy numbers, so float64 cancellation inside
+    # 60-digit magnitudes: the library computes with sympy numbers, so float64 cancellation inside
     # a formula (exp(x) - 1 at tiny x ...) does not masquerade as a wrong formula
-    magnitude = sp.Float(repr(float(magnitude)), 30)
+    magnitude = sp.Float(repr(float(magnitude)), 60)
     if spelling == "si" or dv.dimensionless:
         return Quantity(magnitude * unit)
     if spelling == "kilo":
@@ -116,7 +116,7 @@ def quantity(dv: dims.DimVec, magnitude: Any, spelling: str = "si") -> Any:
     if spelling == "named":
         # rewrite the SI unit product with centimetre / gram / minute
         e = sp.S.One
-        factor = sp.Float(1, 30)
+        factor = sp.Float(1, 60)
         table = {"length": (U.centimeter, 0.01), "mass": (U.gram, 0.001), "time": (U.minute, 60.0)}
         baseunits = dict(zip(dims.BASES, (U.meter, U.kilogram, U.second, U.ampere, U.kelvin,
             U.mole, U.candela)))
@@ -125,7 +125,7 @@ def quantity(dv: dims.DimVec, magnitude: Any, spelling: str = "si") -> Any:
             if b in table:
                 u, f = table[b]
                 e = e * u**xr
-                factor = factor * sp.Float(repr(f), 30)**sp.Rational(x.numerator, x.denominator)
+                factor = factor * sp.Float(repr(f), 60)**sp.Rational(x.numerator, x.denominator)
             else:
                 e = e * baseunits[b]**xr
         return Quantity((magnitude / factor) * e)
